@@ -170,6 +170,7 @@ func RetryWithConfig[T any](opts RetryConfig) func(Observable[T]) Observable[T] 
 
 				var shouldRetry bool
 				var lastErr error
+				lastCtx := subscriberCtx // the context the error was notified with
 
 				sub := source.SubscribeWithContext(
 					subscriberCtx,
@@ -182,6 +183,7 @@ func RetryWithConfig[T any](opts RetryConfig) func(Observable[T]) Observable[T] 
 						},
 						func(ctx context.Context, err error) {
 							lastErr = err
+							lastCtx = ctx
 							retries++
 							shouldRetry = opts.MaxRetries == 0 || retries <= opts.MaxRetries
 						},
@@ -209,7 +211,7 @@ func RetryWithConfig[T any](opts RetryConfig) func(Observable[T]) Observable[T] 
 						// Continue to next iteration
 						continue
 					}
-					destination.ErrorWithContext(subscriberCtx, lastErr)
+					destination.ErrorWithContext(lastCtx, lastErr)
 				}
 				break
 			}
